@@ -293,6 +293,7 @@ func run(c *lib.Ctx) {
 	if c.Mine(len(zones)) {
 		serialisation(c)
 	}
+	phaseAPI(c)
 }
 
 // serialisation enumerates day ranges in JSON and YAML form.
@@ -321,10 +322,15 @@ func serialisation(c *lib.Ctx) {
 					}
 					// YAML form
 					ydoc := fmt.Sprintf("time_zone: %s\n%s:\n  start: %s\n  end: %s\n", zn, dk, st, en)
-					wy := &schedule.Weekly{}
+					// The configuration loader decodes into a default that holds
+					// EmptyWeekly() (home/config.go); do the same.
+					wy := schedule.EmptyWeekly()
 					errY := yaml.Unmarshal([]byte(ydoc), wy)
 					c.Count("evals", 1)
 					c.Count("ser_docs", 1)
+					if errY == nil && !emptyStaysEmpty(c, ydoc, probe) {
+						return
+					}
 					if (errY == nil) != wantOK {
 						c.Violation(fmt.Sprintf("ser-yaml-accept:%s,%s", st, en), fmt.Sprintf("YAML %q: accepted=%v, statement requires accepted=%v (err=%v)", ydoc, errY == nil, wantOK, errY),
 							caseC{Ser: &serCase{Format: "yaml", Doc: ydoc, Want: fmt.Sprint(wantOK), Got: fmt.Sprint(errY)}})
@@ -424,12 +430,31 @@ func serialisation(c *lib.Ctx) {
 	}
 }
 
+// emptyStaysEmpty: "an empty range covers none": whatever has been decoded
+// before, a schedule obtained from EmptyWeekly covers no instant.
+func emptyStaysEmpty(c *lib.Ctx, doc string, probe time.Time) bool {
+	e := schedule.EmptyWeekly()
+	for k := 0; k < 7*24*4; k++ {
+		t := probe.Add(time.Duration(k) * 15 * time.Minute)
+		c.Count("evals", 1)
+		if e.Contains(t) {
+			c.Violation("empty-schedule-covers-an-instant", fmt.Sprintf("after the YAML document %q was decoded into a schedule obtained from EmptyWeekly(), a new EmptyWeekly() covers %s", doc, t),
+				caseC{Ser: &serCase{Format: "empty-after-yaml", Doc: doc}})
+			return false
+		}
+	}
+	return true
+}
+
 func jsonMS(d time.Duration) string {
 	b, _ := json.Marshal(float64(d) / 1e6)
 	return string(b)
 }
 
 func replay(c *lib.Ctx, raw json.RawMessage) string {
+	if msg, ok := replayAPI(c, raw); ok {
+		return msg
+	}
 	var cs caseC
 	if err := json.Unmarshal(raw, &cs); err != nil {
 		return "bad case: " + err.Error()
@@ -438,6 +463,18 @@ func replay(c *lib.Ctx, raw json.RawMessage) string {
 		w := &schedule.Weekly{}
 		var err error
 		switch cs.Ser.Format {
+		case "empty-after-yaml":
+			if err = yaml.Unmarshal([]byte(cs.Ser.Doc), schedule.EmptyWeekly()); err != nil {
+				return ""
+			}
+			e := schedule.EmptyWeekly()
+			probe := time.Date(2024, 6, 5, 12, 0, 30, 0, time.UTC)
+			for k := 0; k < 7*24*4; k++ {
+				if t := probe.Add(time.Duration(k) * 15 * time.Minute); e.Contains(t) {
+					return fmt.Sprintf("EmptyWeekly() covers %s after the document was decoded", t)
+				}
+			}
+			return ""
 		case "yaml":
 			err = yaml.Unmarshal([]byte(cs.Ser.Doc), w)
 		default:
@@ -491,11 +528,12 @@ func main() {
 			return map[string]any{
 				"evaluations":         m.Counters["evals"],
 				"distinct_nontrivial": m.Distinct["nontrivial"],
-				"rule": "every zone with a distinct transition table in the window x every local day before/of/after each transition at every whole minute and +-1ns x 9 day ranges x 15 weekday masks, plus 28 ordinary days; serialised ranges over 12x12 start/end values (incl. fractions of a millisecond) in JSON and YAML. distinct_nontrivial = distinct zone tables exercised + distinct serialised documents; transition days counted separately",
+				"rule": "every zone with a distinct transition table in the window x every local day before/of/after each transition at every whole minute and +-1ns x 9 day ranges x 15 weekday masks, plus 28 ordinary days; serialised ranges over 12x12 start/end values (incl. fractions of a millisecond) in JSON and YAML, each YAML document decoded into an EmptyWeekly() value after which a new EmptyWeekly() must cover nothing; every history of <=4 (thorough: <=6) calls of PUT blocked_services/update (with one of two schedules or none) and the deprecated POST blocked_services/set on a real filter, judged through GET blocked_services/get, the saved section and ApplyBlockedServices at three instants under the virtual clock. distinct_nontrivial = distinct zone tables exercised + distinct serialised documents; transition days counted separately",
 				"zones":               m.Counters["zones"],
 				"transition_days":     m.Distinct["transition_days"],
 				"evals_on_transition_days": m.Counters["evals_on_transition_days"],
 				"serialised_documents":     m.Counters["ser_docs"],
+				"api_histories":            m.Counters["api_histories"],
 			}
 		},
 		Assumptions: []string{"Go's time package and the host tzdata define wall-clock time", "zone enumeration from /usr/share/zoneinfo (fallback: built-in list + time/tzdata)"},
